@@ -166,7 +166,17 @@ def render(case, depdir):
         if pat in ('S', 'TS', 'TSS', 'TTS'):
             b = emit(h, dict(k='struct', tag=tag, fields=fl, union=union))
         if pat == 'TSS':
-            emit(h + 1, dict(k='struct', tag=tag, fields=fl, union=union))       # the same body, in another file
+            s2 = dict(k='struct', tag=tag, fields=fl, union=union)
+            if d.get('samebase'):
+                # the same body in a file with the SAME BASE NAME in another directory, at the SAME line
+                # (foo/types.h vs foo/private/types.h): positions that differ in the directory only
+                first = [x for x in files[hfile(h)] if x.get('sid') == b][0]
+                f2 = '/src/lib/private/' + os.path.basename(first['file'])
+                sid[0] += 1
+                s2.update(file=f2, line=first['line'], sid=sid[0])
+                files.setdefault(f2, []).append(s2)
+            else:
+                emit(h + 1, s2)       # the same body, in another file
         if t and t2 and b:
             pairs.append((t, t2, b))
         elif t and b:
@@ -413,7 +423,8 @@ def gen_case(rng, idx, dup=False):
         if d['kind'] == 'class' and ifaces:
             d['impl'] = d['impl'] + [tname(i) for i in rng.sample(ifaces, rng.randint(0, min(2, len(ifaces))))]
     if dup:
-        d = dict(kind='rec', n=rng.choice([x for x in range(60, 70)]), pat='TSS', owner=0, uses='-', h=1, th=0)
+        d = dict(kind='rec', n=rng.choice([x for x in range(60, 70)]), pat='TSS', owner=0, uses='-', h=1, th=0,
+                 samebase=(idx % 2 == 0))
         decls.append(d)
     fav = rng.choice(owners) if owners else 0          # several methods on one type: their order is the writer's business
     for n in rng.sample([x for x in range(70, 89)], rng.randint(3, 9)):
